@@ -21,6 +21,8 @@ pub enum TOp {
     ResetRemaining,
     SetRange(u32, u32, bool),
     SetExact(u32),
+    /// `set_range(get_range())`: a no-op by contract
+    Reapply,
 }
 #[derive(Clone, Debug, Serialize, Deserialize, PartialEq)]
 pub struct C34Scn {
@@ -207,6 +209,19 @@ fn direct(s: &C34Scn, out: &mut Outcome) -> Option<Violation> {
                 w.max = u32::MAX - 1;
                 let _ = (lo, hi);
             }
+            TOp::Reapply => {
+                use std::ops::RangeBounds;
+                let a = {
+                    let g = t.get_range();
+                    (g.start_bound().cloned(), g.end_bound().cloned())
+                };
+                let b = {
+                    let g = twin.get_range();
+                    (g.start_bound().cloned(), g.end_bound().cloned())
+                };
+                t.set_range(a);
+                twin.set_range(b);
+            }
             TOp::SetExact(n) => {
                 t.set_exact(*n);
                 twin.set_exact(*n);
@@ -235,6 +250,7 @@ fn direct(s: &C34Scn, out: &mut Outcome) -> Option<Violation> {
             TOp::ResetRemaining => "r",
             TOp::SetRange(..) => "s",
             TOp::SetExact(_) => "x",
+            TOp::Reapply => "a",
         });
     }
     out.sim_time = polls_total;
@@ -453,6 +469,7 @@ impl Check for C34 {
                     pre = Some(TOp::SetRange(l, if inc { l + w2 } else { l + w2 + 1 }, inc));
                     TOp::ResetRemaining
                 }
+                13 if !machine && r.chance(1, 2) => TOp::Reapply,
                 _ => TOp::Poll(1 + r.below(40) as u32),
             };
             if let Some(p) = pre {
